@@ -38,7 +38,7 @@ REASONS = {
     24: "fractal heap: indirect root block (not followed)", 25: "v2 B-tree of depth > 0 (not followed)",
     26: "fractal heap header: not decodable", 27: "v2 B-tree: not decodable", 28: "dense storage: a record does not resolve",
     30: "object without symbol table / link / dataset messages", 31: "datatype message: not decodable",
-    32: "dataspace message: not decodable", 33: "layout message: not decodable (version other than 3 / virtual)",
+    32: "dataspace message: not decodable", 33: "layout message: not decodable",
     34: "filter pipeline message: not decodable", 35: "filter other than deflate / shuffle / fletcher32",
     36: "fill value message: not decodable", 37: "attribute message: not decodable",
     38: "filtered dataset that is not chunked", 39: "link message: not decodable", 40: "link info message: not decodable",
@@ -46,6 +46,53 @@ REASONS = {
     43: "variable-length element does not resolve in its global heap collection",
     44: "fractal heap: indirect block not decodable", 45: "v2 B-tree internal node: not decodable",
     46: "shared message: not resolvable", 47: "committed datatype header without a datatype message",
+    48: "layout v4: fixed array chunk index (not followed)", 49: "layout v4: extensible array chunk index (not followed)",
+    50: "layout v4: v2 B-tree chunk index (not followed)", 51: "virtual dataset layout (not followed)",
+    900: "strict walk accepts, the summary is too long to transport (more than 50000 numbers: link names of 64 kB)",
+    # the structural clauses of Spec/Walk.v, one code each
+    60: "clause: local heap: the free list is malformed",
+    61: "clause: v1 B-tree: the root node has siblings",
+    62: "clause: v1 B-tree: node level differs from what its parent implies",
+    63: "clause: chunk B-tree: keys are not increasing",
+    64: "clause: fractal heap: heap ID length too small for offset and length",
+    65: "clause: fractal heap: no root block although managed objects are counted",
+    66: "clause: fractal heap: allocated managed space differs from the blocks found",
+    67: "clause: dense attributes: type 8 record size is not heap ID length + 9",
+    68: "clause: dense attributes: type 5 record size is not 11",
+    69: "clause: dense attributes: name index of a type other than 5 / 8",
+    70: "clause: dense attributes: number of index records differs from the heap's managed objects",
+    71: "clause: dense attributes: index records not sorted by hash",
+    72: "clause: link info: a name index without a heap",
+    73: "clause: dense links: name index is not type 5 with 11-byte records",
+    74: "clause: dense links: heap ID length is neither 7 nor 8",
+    75: "clause: dense links: number of index records differs from the heap's managed objects",
+    76: "clause: dense links: index records not sorted by hash",
+    77: "clause: layout v4 chunked: dimensionality is not rank + 1 or the last dimension is not the element size",
+    78: "clause: layout v4 single chunk: filtered size without a filter pipeline",
+    79: "clause: layout v4 single chunk: empty chunk",
+    80: "clause: layout v4 implicit index with a filter pipeline",
+    81: "clause: layout v4 implicit index: no chunks",
+    82: "clause: compact layout: data size differs from dataspace x element size",
+    83: "clause: contiguous layout with a filter pipeline",
+    84: "clause: contiguous layout: size differs from dataspace x element size",
+    85: "clause: chunked layout: the last dimension is not the element size",
+    86: "clause: chunked layout: dimensionality is neither rank + 1 nor rank",
+    87: "clause: chunked layout: a chunk dimension is 0",
+    88: "clause: chunk key: the offset of the element-size dimension is not 0",
+    89: "clause: chunk key: an offset is not a multiple of the chunk dimension",
+    90: "clause: chunk of size 0",
+    91: "clause: unfiltered chunk: filter mask set or size differs from the chunk size",
+    92: "clause: attribute info message 0x15 next to a message 0x0f",
+    93: "clause: duplicate attribute names",
+    94: "clause: symbol-table group: duplicate or empty link names",
+    95: "clause: symbol table entry cache differs from the child's symbol table message",
+    96: "clause: symbol table entry caches group addresses but the child has no symbol table message",
+    97: "clause: new-style group: link messages and dense link storage together",
+    98: "clause: new-style group: duplicate link names",
+    99: "clause: new-style group with a layout / datatype message",
+    100: "clause: superblock root entry cache differs from the root group's symbol table message",
+    101: "clause: superblock root entry: the root object has no symbol table message",
+    102: "clause: superblock: end-of-file address beyond the file",
 }
 
 
